@@ -31,6 +31,7 @@ CONSTANTS Slots, KVals, AVals, VVals, BadV, MaxBatch,
           WithFlusher,   \* BOOLEAN: explore flusher / clock steps
           WithSwitch,    \* BOOLEAN: explore settings switches through Create
           WithGet,       \* BOOLEAN: explore explicit Get steps (cache fill)
+          WithHandle,    \* BOOLEAN: explore searches evaluated now and collected after later writes (C20)
           Dev,           \* enabled deviations
           BatchFilter(_) \* which batches are explored (generation configs thin them out)
 
@@ -45,11 +46,12 @@ VARIABLES files,    \* Slots -|-> object : object files of the collection direct
           started,  \* flusher goroutine running
           slept,    \* ticks since the flusher last flushed
           astore,   \* specification variable: the abstract map
+          hnd,      \* an evaluated, not yet collected search: [live, ids, age]
           res,      \* class returned by the last call (observation only)
           hist      \* operations so far (test generation only)
 
-vars == <<files, didx, dcfg, loaded, midx, cfg, cache, pending, started, slept, astore, res, hist>>
-view == <<files, didx, dcfg, loaded, midx, cfg, cache, pending, started, slept, astore>>
+vars == <<files, didx, dcfg, loaded, midx, cfg, cache, pending, started, slept, astore, hnd, res, hist>>
+view == <<files, didx, dcfg, loaded, midx, cfg, cache, pending, started, slept, astore, hnd>>
 
 Abs == INSTANCE SodAbs WITH store <- astore, handle <- [ids |-> {}, live |-> FALSE]
 
@@ -65,9 +67,16 @@ Valid(o)     == o.V # BadV
 
 MustCache == cfg.cache \/ cfg.async
 
+\* a search value held by the caller across later writes (at most MaxAge of them)
+NoH    == [live |-> FALSE, ids |-> {}, age |-> 0]
+MaxAge == 2
+HWrite == /\ (hnd.live => hnd.age < MaxAge)
+          /\ hnd' = IF hnd.live THEN [hnd EXCEPT !.age = @ + 1] ELSE hnd
+HSame  == UNCHANGED hnd
+
 Init == /\ files = Empty /\ didx = Empty /\ midx = Empty /\ cache = Empty /\ pending = Empty
         /\ cfg \in Cfgs /\ dcfg = cfg /\ loaded = TRUE      \* Open + Create
-        /\ started = FALSE /\ slept = 0 /\ astore = Empty /\ res = "ok"
+        /\ started = FALSE /\ slept = 0 /\ astore = Empty /\ res = "ok" /\ hnd = NoH
         /\ hist = <<[op |-> "cfg", cache |-> cfg.cache, async |-> cfg.async]>>
 
 Room     == Len(hist) <= MaxOps
@@ -79,7 +88,7 @@ Commit(ix, c) == didx' = ix /\ dcfg' = c
 Load == /\ ~loaded
         /\ loaded' = TRUE /\ midx' = didx /\ cfg' = dcfg
         /\ started' = FALSE
-        /\ UNCHANGED <<files, didx, dcfg, cache, pending, slept, astore, res, hist>>
+        /\ UNCHANGED <<files, didx, dcfg, cache, pending, slept, astore, res, hist, hnd>>
 
 Ready == loaded /\ Room
 
@@ -91,7 +100,7 @@ LiveConflict(ix, u, o) == \E w \in DOMAIN ix : w # u /\ ix[w].K = o.K
 -----------------------------------------------------------------------------
 (* InsertOrUpdate                                                           *)
 Put(u, o) ==
-  /\ Ready /\ Log([op |-> "put", slot |-> u, o |-> o]) /\ Started
+  /\ Ready /\ Log([op |-> "put", slot |-> u, o |-> o]) /\ Started /\ HWrite
   /\ IF ~Valid(o)
      THEN /\ res' = "invalid"
           /\ UNCHANGED <<files, didx, dcfg, loaded, midx, cfg, cache, pending, slept, astore>>
@@ -126,7 +135,7 @@ BOver(S, b, g(_)) == [x \in DOMAIN S \cup {b[i].u : i \in 1..Len(b)} |->
                         IF x \in {b[i].u : i \in 1..Len(b)} THEN g(Abs!Final(b, x)) ELSE S[x]]
 Id(o) == o
 PutMany(b) ==
-  /\ Ready /\ Log([op |-> "many", batch |-> [i \in 1..Len(b) |-> [slot |-> b[i].u, o |-> b[i].o]]]) /\ Started
+  /\ Ready /\ Log([op |-> "many", batch |-> [i \in 1..Len(b) |-> [slot |-> b[i].u, o |-> b[i].o]]]) /\ Started /\ HWrite
   /\ IF CodeRejects(midx, b)
      THEN /\ res' = BatchClass(midx, b)
           /\ UNCHANGED <<files, didx, dcfg, loaded, midx, cfg, cache, pending, slept, astore>>
@@ -152,18 +161,35 @@ Drop(U) ==
   /\ res' = "ok"
   /\ UNCHANGED <<loaded, cfg, slept>>
 
-Del(u)  == Ready /\ Log([op |-> "del", slot |-> u]) /\ Started /\ Drop({u})
-DelAll  == Ready /\ Log([op |-> "delall"]) /\ Started /\ Drop(DOMAIN midx)
+Del(u)  == Ready /\ Log([op |-> "del", slot |-> u]) /\ Started /\ HWrite /\ Drop({u})
+DelAll  == Ready /\ Log([op |-> "delall"]) /\ Started /\ HWrite /\ Drop(DOMAIN midx)
 IdxMatch(f, op, p) == {u \in DOMAIN astore : Sat(astore[u][f], op, p)}
-DelSearch(f, op, p) == /\ Ready /\ Log([op |-> "delsearch", q |-> <<[f |-> f, op |-> op, p |-> p]>>]) /\ Started
+DelSearch(f, op, p) == /\ Ready /\ Log([op |-> "delsearch", q |-> <<[f |-> f, op |-> op, p |-> p]>>]) /\ Started /\ HWrite
                        /\ Drop(IdxMatch(f, op, p) \cap DOMAIN midx)
+
+-----------------------------------------------------------------------------
+(* A search evaluated now (twice: one twin is collected at once, the other  *)
+(* after the following writes) and collected later                          *)
+Eval(f, op, p) ==
+  /\ Ready /\ WithHandle /\ ~hnd.live
+  /\ Log([op |-> "eval2", q |-> <<[f |-> f, op |-> op, p |-> p]>>]) /\ Started
+  /\ hnd' = [live |-> TRUE, ids |-> IdxMatch(f, op, p) \cap DOMAIN midx, age |-> 0]
+  /\ res' = "ok"
+  /\ UNCHANGED <<files, didx, dcfg, loaded, midx, cfg, cache, pending, slept, astore>>
+Collect ==
+  /\ Ready /\ hnd.live /\ Log([op |-> "collect2"]) /\ Started
+  /\ hnd' = NoH /\ res' = "ok"
+  /\ UNCHANGED <<files, didx, dcfg, loaded, midx, cfg, cache, pending, slept, astore>>
+\* C20 at design level: what is collected never contains an object that did not match at evaluation time
+Collected == hnd.ids \cap DOMAIN astore
+SnapshotOK == hnd.live => Collected \subseteq hnd.ids
 
 -----------------------------------------------------------------------------
 (* Get: the read path, with cache fill                                      *)
 ReadView(u) == IF MustCache /\ u \in DOMAIN cache THEN cache[u]
                ELSE IF u \in DOMAIN files THEN files[u] ELSE None
 Get(u) ==
-  /\ Ready /\ WithGet /\ Log([op |-> "get", slot |-> u]) /\ Started
+  /\ Ready /\ WithGet /\ ~hnd.live /\ Log([op |-> "get", slot |-> u]) /\ Started /\ HSame
   /\ res' = IF ReadView(u) = None THEN "notfound" ELSE "ok"
   /\ cache' = IF ~MustCache \/ u \in DOMAIN cache THEN cache
               ELSE IF u \in DOMAIN files THEN Upd(cache, u, files[u])
@@ -176,7 +202,7 @@ Get(u) ==
 FlushEffect == files' = Over(files, pending) /\ pending' = Empty
 
 FlushAll(commit) ==
-  /\ Ready /\ Log([op |-> "flush", what |-> IF commit THEN "allcommit" ELSE "all"]) /\ Started
+  /\ Ready /\ ~hnd.live /\ Log([op |-> "flush", what |-> IF commit THEN "allcommit" ELSE "all"]) /\ Started /\ HSame
   /\ FlushEffect
   /\ IF commit THEN Commit(midx, cfg) ELSE UNCHANGED <<didx, dcfg>>
   /\ res' = "ok"
@@ -184,7 +210,7 @@ FlushAll(commit) ==
 
 \* Close (flush every collection, commit every loaded schema), then a new handle
 Reopen(create) ==
-  /\ Room /\ Log([op |-> "reopen", close |-> TRUE, create |-> create])
+  /\ Room /\ ~hnd.live /\ HSame /\ Log([op |-> "reopen", close |-> TRUE, create |-> create])
   /\ files' = Over(files, pending)
   /\ IF loaded THEN Commit(midx, cfg) ELSE UNCHANGED <<didx, dcfg>>
   /\ cache' = Empty /\ pending' = Empty /\ started' = FALSE /\ slept' = 0
@@ -194,7 +220,7 @@ Reopen(create) ==
 
 \* a new handle without Close: only promised to be harmless in synchronous mode
 Abandon(create) ==
-  /\ Room /\ ~cfg.async /\ (loaded \/ ~dcfg.async)
+  /\ Room /\ ~cfg.async /\ (loaded \/ ~dcfg.async) /\ ~hnd.live /\ HSame
   /\ Log([op |-> "reopen", close |-> FALSE, create |-> create])
   /\ cache' = Empty /\ pending' = Empty /\ started' = FALSE /\ slept' = 0
   /\ IF create THEN loaded' = TRUE /\ midx' = didx /\ cfg' = dcfg
@@ -203,7 +229,7 @@ Abandon(create) ==
 
 \* Create on an existing collection with other settings
 Switch(c) ==
-  /\ Ready /\ WithSwitch /\ c # cfg
+  /\ Ready /\ WithSwitch /\ c # cfg /\ ~hnd.live /\ HSame
   /\ Log([op |-> "switch", cache |-> c.cache, async |-> c.async]) /\ Started
   /\ cfg' = c /\ Commit(midx, c)
   \* design: pending writes are flushed before asynchronous mode is left;
@@ -220,12 +246,12 @@ FlusherPoll ==
   /\ WithFlusher /\ started /\ loaded /\ cfg.async /\ FlushDue /\ Room
   /\ Log([op |-> "poll"])
   /\ FlushEffect /\ Commit(midx, cfg) /\ slept' = 0
-  /\ UNCHANGED <<loaded, midx, cfg, cache, started, astore, res>>
+  /\ UNCHANGED <<loaded, midx, cfg, cache, started, astore, res, hnd>>
 Tick ==
   /\ WithFlusher /\ started /\ loaded /\ cfg.async /\ ~FlushDue /\ Room
   /\ Log([op |-> "tick"])
   /\ slept' = slept + 1
-  /\ UNCHANGED <<files, didx, dcfg, loaded, midx, cfg, cache, pending, started, astore, res>>
+  /\ UNCHANGED <<files, didx, dcfg, loaded, midx, cfg, cache, pending, started, astore, res, hnd>>
 
 -----------------------------------------------------------------------------
 Ops     == {"=", "!=", "<", "<=", ">", ">="}
@@ -235,7 +261,8 @@ Next ==
   \/ \E b \in Batches : BatchFilter(b) /\ PutMany(b)
   \/ \E u \in Slots : Del(u) \/ Get(u)
   \/ DelAll
-  \/ \E op \in Ops, p \in AVals : DelSearch("A", op, p)
+  \/ \E op \in Ops, p \in AVals : DelSearch("A", op, p) \/ Eval("A", op, p)
+  \/ Collect
   \/ \E c \in BOOLEAN : Reopen(c) \/ Abandon(c) \/ FlushAll(c)
   \/ \E c \in Cfgs : Switch(c)
   \/ FlusherPoll \/ Tick
